@@ -383,6 +383,109 @@ def rule_SB8(rep, prog):
         rep.unknown(rid, "fewer than 5 obligations formed (%d)" % n)
 
 
+def rule_SB9(rep, prog):
+    rid = rep.rule("C13-SB9", "entry-point case splits: create_map returns the object it was given (or a flat copy of the same size / the empty singleton), never a "
+                   "different existing object; create / create_f run the destructor of EVERY buffer they do not adopt (size 0 included); create_subrange takes the "
+                   "'whole object' shortcut only for offset 0 and the 'empty' shortcut only for offset >= size or length 0", floor=30)
+    # 1. dispatch_data_create_map
+    fn = prog.fn("dispatch_data_create_map")
+    rep.saw(fn)
+    def roots(op, depth=0):
+        if op[0] != "i" or depth > 6:
+            return [op]
+        i = fn.inst(op)
+        if i is None:
+            return [op]
+        if i.op == "phi":
+            return [r for v, frm in i.ops for r in roots(v, depth + 1)]
+        if i.op in ("bitcast",):
+            return roots(i.ops[0], depth + 1)
+        return [op]
+    rets = [b.term for b in fn.blocks if b.term.op == "ret" and b.term.ops]
+    if not rets:
+        rep.unknown(rid, "dispatch_data_create_map has no value return")
+    for r in rets:
+        for o in roots(r.ops[0]):
+            i = fn.inst(o) if o[0] == "i" else None
+            ok = (list(o[:2]) == ["a", 0]) or o[0] == "n" or (o[0] == "g" and o[1] == "_dispatch_data_empty") or \
+                 (i is not None and i.op == "call" and i.callee in ("dispatch_data_create", "dispatch_data_create_f", "_dispatch_data_alloc"))
+            rep.require(rid, ok, r.loc, fn.name, "map-returns-other-object:%s" % (o[:2],),
+                        "dispatch_data_create_map can return an object that is neither its argument, a newly created flat copy, the empty singleton nor NULL (%s): e.g. "
+                        "the leaf UNDER a one-record view instead of the view - the caller's object then has the leaf's size and bytes, not the mapped range's"
+                        % ("%s at %s" % (i.op, i.loc) if i is not None else o,), sample={"returned": str(o[:2])})
+        for c in [x for x in fn.all_insts() if x.op == "call" and x.callee in ("dispatch_data_create", "dispatch_data_create_f")]:
+            sz = fn.inst(c.ops[1])
+            ok = sz is not None and sz.op == "load" and "size" in prog.fields(sz) and list(sz.d["ptr"]["base"][:2]) == ["a", 0]
+            rep.require(rid, ok, c.loc, fn.name, "map-copy-size", "dispatch_data_create_map creates the flat copy with a size other than the argument's size", sample={"call": c.loc})
+    # 2. dispatch_data_create(_f): every exit that hands back the empty singleton has disposed of the caller's buffer unless there was no destructor
+    fnf = prog.fn("dispatch_data_create_f")
+    rep.saw(fnf)
+    dl = calls_named(fnf, "dispatch_data_create")
+    okf = bool(dl) and all(list(c.ops[0][:2]) == ["a", 0] and list(c.ops[1][:2]) == ["a", 1] for c in dl) and \
+        all(fnf.inst(b.term.ops[0]) in dl for b in fnf.blocks if b.term.op == "ret" and b.term.ops)
+    rep.require(rid, okf, fnf.file + ":" + str(fnf.d.get("line")), fnf.name, "create-f-delegates",
+                "dispatch_data_create_f must hand its buffer and size unchanged to dispatch_data_create and return that result on every path (the destructor "
+                "obligations are discharged there)", sample={"delegations": len(dl)})
+    for name in ("dispatch_data_create",):
+        fn = prog.fn(name)
+        rep.saw(fn)
+        destroy = calls_named(fn, "_dispatch_data_destroy_buffer")
+        dnull = [t for t in fn.all_insts() if t.op == "icmp" and t.d["pred"] in ("eq", "ne") and list(t.ops[0][:2]) == ["a", 3] and t.ops[1][0] == "n"]
+        if not destroy or not dnull:
+            rep.unknown(rid, "anchor vanished in %s (destroy_buffer calls=%d, destructor NULL tests=%d)" % (name, len(destroy), len(dnull)))
+            continue
+        n = 0
+        for kind, inst, cx, path in paths.walk(fn, entry_point(fn), lambda i: False):
+            if kind != "exit" or not inst.ops:
+                continue
+            v = cx.resolve(inst.ops[0]) if hasattr(cx, "resolve") else inst.ops[0]
+            if not (v and v[0] == "g" and v[1] == "_dispatch_data_empty"):
+                continue
+            n += 1
+            passed = any(i in destroy for b in path for i in fn.blocks[b].insts)
+            known_null = any(cx.truth.get(t.id) == (t.d["pred"] == "eq") for t in dnull if t.id in cx.truth)
+            rep.require(rid, passed or known_null, inst.loc, name, "empty-create-skips-destructor:%s" % name,
+                        "%s returns the empty singleton on a path (%s) that neither ran the destructor on the caller's buffer nor saw the destructor NULL: a real buffer "
+                        "passed with size 0 (or a NULL buffer with a destructor) is never released - the destructor runs zero times instead of once" % (name, path),
+                        sample={"path": path})
+        if n == 0:
+            rep.unknown(rid, "%s: no return of the empty singleton found" % name)
+    # 3. dispatch_data_create_subrange: concrete classification of the entry case split
+    fn = prog.fn("dispatch_data_create_subrange")
+    rep.saw(fn)
+    szl = [l for l in fn.all_insts() if l.op == "load" and "size" in prog.fields(l) and list(l.d["ptr"]["base"][:2]) == ["a", 0]]
+    if not szl:
+        rep.unknown(rid, "anchor vanished: dispatch_data_create_subrange does not read dd->size")
+        return
+    S = 10
+    M = (1 << 64) - 1
+    for off in (0, 3, 9, 10, 11, M):
+        for ln in (0, 1, 7, 10, 11, M):
+            env = {l.id: S for l in szl}
+            env[("a", 1)] = off
+            env[("a", 2)] = ln
+            stop = lambda i: i.op == "ret" or (i.op == "call" and i.callee and "retain" not in i.callee and not i.callee.startswith("llvm."))
+            hit, env = concrete_walk(fn, env, stop)
+            if hit is None:
+                rep.unknown(rid, "could not follow dispatch_data_create_subrange concretely for offset %d length %d" % (off, ln))
+                continue
+            if hit.op == "ret":
+                v = hit.ops[0]
+                if v[0] == "i" and isinstance(env.get(v[1]), tuple):
+                    v = env[v[1]][1]
+                got = "whole" if list(v[:2]) == ["a", 0] else "empty" if (v[0] == "g" and v[1] == "_dispatch_data_empty") else "other"
+            else:
+                got = "slice"
+            want = "empty" if (off >= S or ln == 0) else "whole" if (off == 0 and ln >= S) else "slice"
+            if want == "whole" and got == "slice":
+                got = want      # building an equal object instead of retaining the argument is also correct
+            rep.require(rid, got == want, fn.file + ":" + str(fn.d.get("line")), fn.name, "subrange-case:%d:%d" % (off if off < M else -1, ln if ln < M else -1),
+                        "dispatch_data_create_subrange(dd of size %d, offset %s, length %s) takes the '%s' case, expected '%s': %s"
+                        % (S, off if off < M else "SIZE_MAX", ln if ln < M else "SIZE_MAX", got, want,
+                           "the 'whole object' shortcut is valid only at offset 0 - 'drop the first k bytes, keep up to size' must yield [k, size)" if got == "whole"
+                           else "the slice denotes the clamped range [offset, min(offset+length, size))"), sample={"size": S, "offset": off, "length": ln, "case": want})
+
+
 def run(rep, tier="quick", srcdir=None, only=None):
     prog, units = load(UNITS, tier, srcdir)
     rep.units = units
@@ -401,6 +504,8 @@ def run(rep, tier="quick", srcdir=None, only=None):
         rule_AI6(rep, prog)
     if want("C13-BD7"):
         rule_BD7(rep, prog)
+    if want("C13-SB9"):
+        rule_SB9(rep, prog)
     if want("C13-SB8"):
         rule_SB8(rep, prog)
 
